@@ -567,7 +567,7 @@ func (g *gen) history(tid string, ks kindSpec, prof string, nops int) {
 		case x < ins+del+p.srch+p.size+p.minmax+p.iter:
 			g.emit("%s %s %s", pick(r, []string{"ALL", "BWD"}), tid, g.stops(p, len(pool)))
 		case x < ins+del+p.srch+p.size+p.minmax+p.iter+p.bounded:
-			n := pick(r, []uint64{0, 1, 2, 3, uint64(len(pool) / 2), uint64(len(pool)), uint64(len(pool) + 1), 1 << 40})
+			n := pick(r, []uint64{0, 1, 2, 3, uint64(len(pool) / 2), uint64(len(pool)), uint64(len(pool) + 1), 1 << 40, 1 << 63, math.MaxUint64 - 1, math.MaxUint64})
 			g.emit("%s %s %x %s", pick(r, []string{"TOPK", "BOTK"}), tid, n, g.stops(p, 4))
 		case x < ins+del+p.srch+p.size+p.minmax+p.iter+p.bounded+p.rng:
 			a, b := probe(), probe()
